@@ -135,6 +135,9 @@ type Elev struct {
 type Msg struct {
 	Ts   O     `json:"ts"`
 	Ents []Ent `json:"ents"`
+	// Fuse lists pairs (i, j) of entity indexes (1-based) that are written as ONE FeedEntity carrying both payloads
+	// (GTFS-realtime allows an entity to hold a trip update, a vehicle position and an alert at once).
+	Fuse [][]int `json:"fuse,omitempty"`
 }
 
 // ---- result side ----
